@@ -2,6 +2,7 @@ package keeper
 
 import (
 	"encoding/hex"
+	"math"
 
 	errorsmod "cosmossdk.io/errors"
 	"cosmossdk.io/log"
@@ -55,6 +56,14 @@ func (k Keeper) RequestRandom(
 	serviceFeeCap sdk.Coins,
 ) (types.Request, error) {
 	currentHeight := ctx.BlockHeight()
+	// the destination height must fit int64: a wrapped height lies in the past (or beyond
+	// any reachable height) and the request would stay in the queue forever
+	if blockInterval > uint64(math.MaxInt64-currentHeight) {
+		return types.Request{}, errorsmod.Wrapf(
+			types.ErrInvalidHeight,
+			"block interval %d too large at height %d", blockInterval, currentHeight,
+		)
+	}
 	destHeight := currentHeight + int64(blockInterval)
 
 	// get tx hash
